@@ -158,6 +158,7 @@ def units(tier):
     from props import c09_printall as PA
     from props.common import wrap as _wrap
     _wrap(us, "C09.print_all.state_reset_independent_of_output_switches", PA.unit_print_all)
+    _wrap(us, "C09.lines.refreshed_also_when_the_run_is_stopped", PA.unit_lines_on_stop_path)
     return us
 
 
@@ -186,7 +187,9 @@ def unit_split_pairing():
             "WarningLines": "WarningString", "SelectedOutputLinesMap": "SelectedOutputStringMap"}
     def members(n):
         return [x.get("name") for x in A.walk(n) if x.get("kind") == "MemberExpr" and x.get("name") and x["inner"][0].get("kind") == "CXXThisExpr"]
-    for q in ("IPhreeqc::do_run", "IPhreeqc::update_errors"):
+    from vf import callsites as CS
+    qs = sorted({qq for qq, _ in CS.enclosing_functions(IPQ, "std::getline(iss, line)")})      # wherever the splitting loops live
+    for q in qs:
         fn = A.find_function(IPQ, q)
         shas.append(U.new_unit("x", IPQ, q, fn).sha)
         for blk in [x for x in A.walk(fn) if x.get("kind") == "CompoundStmt"]:
